@@ -19,10 +19,12 @@ type c16Case struct {
 	Kills  []string `json:"kills"`  // kill commands by name (the last one is judged with the yank)
 	NumArg string   `json:"numarg"`
 	Region int      `json:"region"` // for kill-region: the mark is set this many characters before
+	Moves  []string `json:"moves,omitempty"` // long sequences: the motion between two kills
 }
 
 var c16Buffers = []string{"echo hello world", "git commit -m 'x y'", "foo(bar[1]) {baz}", "a\nb\nc", "世界 wörld ok", "  padded  text  ", "one", "x", "if true; then\n  echo \"hi\"\nfi",
-	"https://example.com/a?b=c&d=e", "a.b.c-d_e/f", "\"quoted string\" tail", "tab\there and there", "éà combining ́x", "word"}
+	"https://example.com/a?b=c&d=e", "a.b.c-d_e/f", "\"quoted string\" tail", "tab\there and there", "éà combining ́x", "word",
+	"hello\nworld", "ab\ncd\nef", "w01 w02 w03 w04 w05 w06 w07 w08 w09 w10 w11 w12 w13 w14 w15 w16 w17 w18"}
 
 var c16EmacsKills = []string{"kill-line", "backward-kill-line", "unix-line-discard", "kill-word", "backward-kill-word", "unix-word-rubout", "shell-kill-word", "shell-backward-kill-word", "kill-whole-line", "kill-region"}
 
@@ -40,11 +42,34 @@ func c16Gen(r *rand.Rand, tier string, idx int) any {
 	if r.Intn(4) == 0 {
 		c.Cursor = r.Intn(n + 1)
 	}
-	if r.Intn(5) == 0 {
+	if r.Intn(4) == 0 {
 		c.Mode = "vi"
 		c.Kills = []string{"vi-delete"}
-		if r.Intn(2) == 0 {
+		switch r.Intn(4) {
+		case 0:
+		case 1:
 			c.NumArg = fmt.Sprint(2 + r.Intn(4))
+		default:
+			// a count around the number of characters left on the cursor's line
+			rs := []rune(c16Buffers[c.Entry])
+			left := 0
+			for i := c.Cursor; i < len(rs) && rs[i] != '\n'; i++ {
+				left++
+			}
+			if k := left - 1 + r.Intn(4); k >= 2 {
+				c.NumArg = fmt.Sprint(k)
+			}
+		}
+		return c
+	}
+	if r.Intn(12) == 0 {
+		// a long sequence of word kills in one call: more kills than the kill ring has slots
+		c.Mode = "emacs"
+		c.Entry = len(c16Buffers) - 1
+		c.Cursor = 20 + r.Intn(30)
+		for i, nk := 0, 11+r.Intn(5); i < nk; i++ {
+			c.Kills = append(c.Kills, pick(r, []string{"kill-word", "backward-kill-word", "unix-word-rubout", "shell-kill-word", "shell-backward-kill-word"}))
+			c.Moves = append(c.Moves, pick(r, []string{"\x02", "\x06", "\x1bf", "\x1bb"}))
 		}
 		return c
 	}
@@ -60,6 +85,9 @@ func c16Gen(r *rand.Rand, tier string, idx int) any {
 		c.NumArg = pick(r, []string{"\x1b2", "\x1b3", "\x1b-", "\x1b-\x1b2"})
 	}
 	c.Region = 1 + r.Intn(6)
+	if r.Intn(2) == 0 {
+		c.Region = -c.Region // the point ends before the mark
+	}
 	return c
 }
 
@@ -74,6 +102,8 @@ func c16Run(env *fw.Env, raw json.RawMessage) fw.Outcome {
 		for i, k := range c16EmacsKills {
 			s.Sh.Config.Bind("emacs", c16Probe+string(rune('a'+i)), k, false)
 		}
+		s.Sh.Keymap.Register(map[string]func(){"verif-set-cursor": func() { s.Sh.Cursor().Set(c.Cursor) }})
+		s.Sh.Config.Bind("vi-command", "\x18\x13", "verif-set-cursor", false)
 	}
 	s := sess.New(env.T, env.Scratch, cfg)
 	defer s.Close()
@@ -97,14 +127,7 @@ func c16Run(env *fw.Env, raw json.RawMessage) fw.Outcome {
 		for i := 0; i < ups; i++ {
 			add("k", "recall")
 		}
-		add("0", "bol")
-		// go to the cursor position with l, crossing lines is not possible with l: use the column
-		// of single-line buffers only; multi-line buffers keep the cursor where k left it
-		if !strings.Contains(buf, "\n") {
-			for i := 0; i < c.Cursor && i < nb-1; i++ {
-				add("l", "move")
-			}
-		}
+		add("\x18\x13", "move") // harness command: cursor to the planned position (any line of the buffer)
 		if c.NumArg != "" {
 			add(c.NumArg, "numarg")
 		}
@@ -127,13 +150,20 @@ func c16Run(env *fw.Env, raw json.RawMessage) fw.Outcome {
 				for i := 0; i < c.Region; i++ {
 					add("\x06", "move")
 				}
+				for i := 0; i < -c.Region; i++ {
+					add("\x02", "move")
+				}
 			}
 			if ki == len(c.Kills)-1 && c.NumArg != "" {
 				add(c.NumArg, "numarg")
 			}
 			add(c16Probe+string(rune('a'+probeIdx(k))), "kill:"+k)
 			if ki < len(c.Kills)-1 {
-				add(pick(rand.New(rand.NewSource(int64(ki+c.Cursor))), []string{"\x02", "\x06", "\x01", "\x05"}), "move")
+				if ki < len(c.Moves) {
+					add(c.Moves[ki], "move")
+				} else {
+					add(pick(rand.New(rand.NewSource(int64(ki+c.Cursor))), []string{"\x02", "\x06", "\x01", "\x05"}), "move")
+				}
 			}
 		}
 		add("\x19", "yank")
@@ -181,6 +211,9 @@ func c16Run(env *fw.Env, raw json.RawMessage) fw.Outcome {
 			argCls = "arg"
 		}
 		o.Cover(fmt.Sprintf("%s|%s|%s|%s", cmd, bufCls, curCls, argCls))
+		if n := strings.Count(strings.Join(c.Kills[:min(len(c.Kills), 99)], ","), ",") + 1; n > 10 {
+			o.Add("kills_judged_in_sequences_longer_than_the_kill_ring", 1)
+		}
 		L, L1, R := []rune(b.Line), []rune(a.Line), []rune(a.Kill)
 		if string(L1) == string(L) {
 			o.Add("kills_that_removed_nothing", 1)
@@ -215,6 +248,7 @@ func c16Run(env *fw.Env, raw json.RawMessage) fw.Outcome {
 			}
 		} else if i+1 < len(plan) && plan[i+1].Tag == "yank" {
 			o.Add("yank_not_at_the_kill_point", 1)
+			o.Add("yank_not_at_the_kill_point:"+cmd, 1)
 		}
 	}
 	// after several kills, yank inserts the most recent one
